@@ -43,3 +43,29 @@ __CPROVER_ensures(VC_FORCE_MAIN(heap, collect) ? (g_o_reclaim_all > 0 && g_o_rec
 __CPROVER_ensures(((collect >= MI_FORCE) && g_is_main && heap->thread_id == g_tid && heap->tld->heap_backing == heap) ? g_o_tdcollect > 0 : g_o_tdcollect == 0)
 __CPROVER_ensures((collect <= MI_FORCE) ? g_o_merge > 0 : g_o_merge == 0);
 #endif
+
+#ifdef VC_CBMC
+/* ---- the per-page step of a collection (C09: a page that still holds live blocks is never freed; on thread exit it is abandoned) ---- */
+mi_page_t* g_cpage; mi_page_queue_t* g_cpq; uint16_t g_used_after;      /* logical: the page's used count after its free lists were collected */
+size_t g_pfc_n; bool g_pfc_force; size_t g_segc_n; bool g_segc_force; size_t g_segc_at_free;
+size_t g_cpf_n; mi_page_t* g_cpf_p; mi_page_queue_t* g_cpf_q; bool g_cpf_force; size_t g_cab_n; mi_page_t* g_cab_p; mi_page_queue_t* g_cab_q;
+void c_pc_free_collect(mi_page_t* page, bool force) __CPROVER_requires(page == g_cpage) __CPROVER_assigns(g_pfc_n, g_pfc_force, g_cpage->used)
+__CPROVER_ensures(g_pfc_n == __CPROVER_old(g_pfc_n) + 1 && !g_pfc_force == !force && g_cpage->used == g_used_after);
+void c_pc_segment_collect(mi_segment_t* segment, bool force) __CPROVER_requires(1) __CPROVER_assigns(g_segc_n, g_segc_force)
+__CPROVER_ensures(g_segc_n == __CPROVER_old(g_segc_n) + 1 && !g_segc_force == !force);
+void c_pc_page_free(mi_page_t* page, mi_page_queue_t* pq, bool force) __CPROVER_requires(page->used == 0 /* call-site obligation: only empty pages are freed */)
+__CPROVER_assigns(g_cpf_n, g_cpf_p, g_cpf_q, g_cpf_force, g_segc_at_free)
+__CPROVER_ensures(g_cpf_n == __CPROVER_old(g_cpf_n) + 1 && g_cpf_p == page && g_cpf_q == pq && !g_cpf_force == !force && g_segc_at_free == g_segc_n);
+void c_pc_page_abandon(mi_page_t* page, mi_page_queue_t* pq) __CPROVER_requires(1) __CPROVER_assigns(g_cab_n, g_cab_p, g_cab_q)
+__CPROVER_ensures(g_cab_n == __CPROVER_old(g_cab_n) + 1 && g_cab_p == page && g_cab_q == pq);
+static bool mi_heap_page_collect(mi_heap_t* heap, mi_page_queue_t* pq, mi_page_t* page, void* arg_collect, void* arg2)
+__CPROVER_requires(page == g_cpage && pq == g_cpq && __CPROVER_r_ok(arg_collect, sizeof(mi_collect_t)) && g_pfc_n == 0 && g_segc_n == 0 && g_cpf_n == 0 && g_cab_n == 0)
+__CPROVER_requires(*(mi_collect_t*)arg_collect == MI_NORMAL || *(mi_collect_t*)arg_collect == MI_FORCE || *(mi_collect_t*)arg_collect == MI_ABANDON)
+__CPROVER_assigns(g_pfc_n, g_pfc_force, g_cpage->used, g_segc_n, g_segc_force, g_cpf_n, g_cpf_p, g_cpf_q, g_cpf_force, g_segc_at_free, g_cab_n, g_cab_p, g_cab_q)
+__CPROVER_ensures(g_pfc_n == 1 && !g_pfc_force == !(*(mi_collect_t*)arg_collect >= MI_FORCE) && __CPROVER_return_value)
+/* empty after collecting its free lists => freed (from its own queue); a forced collect purges the segment first, because freeing the page may free the segment */
+__CPROVER_ensures(g_used_after == 0 ==> (g_cpf_n == 1 && g_cpf_p == page && g_cpf_q == pq && !g_cpf_force == !(*(mi_collect_t*)arg_collect >= MI_FORCE) && g_cab_n == 0))
+__CPROVER_ensures(*(mi_collect_t*)arg_collect == MI_FORCE ? (g_segc_n == 1 && g_segc_force && (g_cpf_n == 1 ==> g_segc_at_free == 1)) : g_segc_n == 0)
+/* C09: a page that still holds live blocks is never freed; when the thread is done it is abandoned, exactly once, otherwise it simply stays */
+__CPROVER_ensures(g_used_after != 0 ==> (g_cpf_n == 0 && g_cab_n == (*(mi_collect_t*)arg_collect == MI_ABANDON ? 1 : 0) && (g_cab_n == 1 ==> (g_cab_p == page && g_cab_q == pq))));
+#endif
